@@ -20,12 +20,12 @@ def main():
     def dies(h):
         return any(len(s["liveR"]) < len(p["liveR"]) for p, s in zip(h, h[1:]))
     hs, total = sgcommon.histories(ctx, "SymbolGraph_gen_c20t.cfg" if thorough else "SymbolGraph_gen_c20.cfg", dies,
-                                   40000 if thorough else 6000)
+                                   12000 if thorough else 6000)
     ctx.cov["histories_in_bound_with_a_death"] = total
     cases = [{"mode": "c14", "h": h} for h in hs]
     loops = [h for h in hs if not any(s["a"] in ("query", "queryx", "queryfirst") for s in h)]
     loop_cases = [{"mode": "c20", "h": h, "loops": 3, "end": ("sweep" if i % 2 == 0 else "evaluate"), "events": False}
-                  for i, h in enumerate(loops[: (8000 if thorough else 1500)])]
+                  for i, h in enumerate(loops[: (3000 if thorough else 1500)])]
     results = replay("sg", cases + loop_cases)
     ctx.replayed = len(cases) + len(loop_cases)
     for c, r in zip(cases, results):
